@@ -6,7 +6,7 @@ from hypothesis import strategies as st
 from ECAgent.Core import Agent, Model
 from ECAgent.Environments import DiscreteWorld, GridWorld, LineWorld, SpaceWorld, PositionComponent
 from vf.engine import Violation, InvalidCase
-from vf.fixtures import check
+from vf.fixtures import check, wone_of
 
 PROPERTY = "C12"
 BUDGET = {"quick": 2400, "thorough": 6000}
@@ -200,7 +200,7 @@ def strategy(tier):
         else:
             ext = [8 * draw(st.integers(1, 12)), 0, 0]
         step = 1 if kind == "space" else 8
-        na = draw(st.one_of(st.integers(0, 6), st.integers(2, 6), st.integers(3, 6)))
+        na = draw(wone_of(st.integers(0, 6), st.integers(2, 6), st.integers(3, 6)))
         c = st.integers(0, 13).map(lambda k: k * step)
         agents = []
         for _ in range(na):
@@ -208,7 +208,7 @@ def strategy(tier):
                 agents.append({"pos": list(draw(st.sampled_from(agents))["pos"])})       # coincident
             else:
                 agents.append({"pos": [draw(c) if ext[ax] > 0 else draw(st.sampled_from([0, 0, 0, 0, step, -step, 3 * step])) for ax in range(3)]})
-        moves = draw(st.lists(st.one_of(
+        moves = draw(st.lists(wone_of(
             st.fixed_dictionaries({"a": st.integers(0, 5), "to": st.tuples(c, c, c).map(list)}),
             st.fixed_dictionaries({"a": st.integers(0, 5), "remove": st.just(True)})), max_size=3))
         for mv in moves:
